@@ -10,7 +10,7 @@ package jsonapi
 // entry. Entries of sr.data that are not fields are invisible through the
 // Resource interface and are not specified.
 
-//@ spec srTypeWf(sr *SoftResource) = sr.Type != nil ==> attrsWf(sr.Type.Attrs) && relsWf(sr.Type.Rels)
+//@ spec srTypeWf(sr *SoftResource) = sr.Type != nil ==> attrsWf(sr.Type.Attrs) && relsWf(sr.Type.Rels) && fieldsDisjoint(*sr.Type)
 //@ spec srReady(sr *SoftResource) = sr.Type != nil && sr.Type.Attrs != nil && sr.Type.Rels != nil && sr.data != nil
 //@ spec srIsField(sr *SoftResource, k string) = k in sr.Type.Attrs || k in sr.Type.Rels
 
@@ -184,7 +184,8 @@ package jsonapi
 //@ ensures others: forall k string :: k != key && srIsField(sr, k) && k in old(mapdom(sr.data)) ==> k in sr.data && sr.data[k] == old(mapval(sr.data))[k]
 //@ ensures others-new: forall k string :: k != key && k in sr.data && !(k in old(mapdom(sr.data))) ==> (k in sr.Type.Attrs ==> isZeroVal(sr.data[k], sr.Type.Attrs[k].Type, sr.Type.Attrs[k].Nullable)) && (!(k in sr.Type.Attrs) ==> k in sr.Type.Rels && isZeroRel(sr.data[k], sr.Type.Rels[k]))
 //@ ensures checked: srChecked(sr)
-//@ ensures typed: old(sr.Type != nil && sr.data != nil && srTyped(sr)) ==> srTyped(sr)
+//@ ensures typed-attrs: old(sr.Type != nil && sr.data != nil && srTyped(sr)) ==> (forall k string :: k in sr.Type.Attrs && k in sr.data ==> valTyped(sr.data[k], sr.Type.Attrs[k]))
+//@ ensures typed-rels: old(sr.Type != nil && sr.data != nil && srTyped(sr)) ==> (forall k string :: k in sr.Type.Rels && k in sr.data ==> relTyped(sr.data[k], sr.Type.Rels[k]))
 
 //@ func SoftResource.AddAttr
 //@ flag absolute-quantifiers
